@@ -118,8 +118,13 @@ def check_product(e):
     if x[0] != "opc" or x[1] != "*" or len(x) != 4:
         return "skip", ""
     tys = e.get("argtys") or []
-    if not tys or not is_rot_type(tys[0]):
+    if not tys:
         return "skip", ""
+    if not is_rot_type(tys[0]):
+        # Rotation * Vec3 resolves to the Mat33 base-class operator: accept it when the left operand is a variable named as a rotation (R_AB)
+        ln = leaf_name(x[2]) if isinstance(x[2], list) and x[2][:1] in (["var"], ["mem"]) else None
+        if not (str(tys[0]).startswith("SimTK::Mat<3, 3") and ln and re.match(r"^(m_)?R_[A-Z]", ln)):
+            return "skip", ""
     L = rot_monogram(x[2])
     if not L:
         return "unchecked", "left operand %s has no monogram" % sx_str(x[2])[:40]
